@@ -4,7 +4,7 @@
    of symbol x designates.  Proofs: IR/Symbols.v.  The end-to-end statement (positions after apply() = positions
    in the edited listing) is checked on the implementation by the listing oracle of harness/c02.py. *)
 From Coq Require Import ZArith List Bool Arith.
-From GR Require Import Base.Result Adt.RefCache Adt.RefCacheProofs IR.State IR.Modify IR.Edit IR.Symbols.
+From GR Require Import Base.Result Adt.RefCache Adt.RefCacheProofs IR.State IR.Modify IR.Edit IR.Symbols IR.SymbolsRemove.
 Import ListNotations.
 Open Scope Z_scope.
 
@@ -55,6 +55,20 @@ Theorem C02_join_referents_empty_head :
                                      end.
 Proof. exact rc_join_move_spec. Qed.
 
+(* taking a block out: every symbol that referred to it (start or end) now refers to the place that took over -- the fresh proxy when
+   retarget_to_proxy, else the start of the next block of the section, else the end of the previous one -- and no other symbol changes *)
+Theorem C02_remove_block_referents : forall s b tp s',
+  remove_block s b tp = Ok (true, s') -> Inv (rcache s) ->
+  let prev := fst (adjacent_blocks s b) in
+  let next_ := snd (adjacent_blocks s b) in
+  let tgt := if tp then Some (next s) else match next_ with Some n => Some n | None => prev end in
+  let at_end := negb tp && (match next_ with None => true | Some _ => false end) && (match prev with Some _ => true | None => false end) in
+  Inv (rcache s') /\
+  forall x, In x (map fst (stab (rcache s))) ->
+    (fst (abs (rcache s) x) = Some b -> tgt <> None /\ abs (rcache s') x = (tgt, at_end)) /\
+    (fst (abs (rcache s) x) <> Some b -> abs (rcache s') x = abs (rcache s) x).
+Proof. exact remove_block_referents. Qed.
+
 (* non-vacuity: a block [0,3) with a start and an end label, split at 1: both labels keep their place *)
 Definition ex_state : st :=
   mk_st [(0%nat, mk_blk KCode (Some 100%nat) 0 3)] [(100%nat, mk_ival 0 [144; 144; 195] [])] [(0%nat, [0%nat])]
@@ -65,6 +79,20 @@ Example C02_nonvacuous :
     sym_pos ex_state 1%nat = Some (100%nat, 0) /\ sym_pos ex_state 2%nat = Some (100%nat, 3).
 Proof.
   eexists; eexists; eexists. split; [vm_compute; reflexivity|]. split.
+  - apply Inv_init. cbn. repeat constructor; cbn; intuition discriminate.
+  - repeat split; vm_compute; reflexivity.
+Qed.
+
+(* non-vacuity of the removal theorem: blocks [0,3) and [3,4); the first is taken out: its start and end labels move to the second *)
+Definition ex_state2 : st :=
+  mk_st [(0%nat, mk_blk KCode (Some 100%nat) 0 3); (1%nat, mk_blk KCode (Some 100%nat) 3 1)] [(100%nat, mk_ival 0 [144; 144; 144; 195] [])] [(0%nat, [0%nat; 1%nat])]
+        (RefCache.mk_rc [] [(1%nat, (Some 0%nat, false)); (2%nat, (Some 0%nat, true)); (3%nat, (Some 1%nat, false))]) [] [] [] [] [] [] [] [[]; []; []] [] [[]; []; []; []] None 900.
+Example C02_remove_nonvacuous :
+  exists s', remove_block ex_state2 0%nat false = Ok (true, s') /\ Inv (rcache ex_state2) /\
+    adjacent_blocks ex_state2 0%nat = (None, Some 1%nat) /\
+    abs (rcache s') 1%nat = (Some 1%nat, false) /\ abs (rcache s') 2%nat = (Some 1%nat, false) /\ abs (rcache s') 3%nat = (Some 1%nat, false).
+Proof.
+  eexists. split; [vm_compute; reflexivity|]. split.
   - apply Inv_init. cbn. repeat constructor; cbn; intuition discriminate.
   - repeat split; vm_compute; reflexivity.
 Qed.
